@@ -2,6 +2,7 @@ package main
 
 import (
 	"fmt"
+	"os"
 	"go/token"
 	"go/types"
 	"sort"
@@ -34,180 +35,246 @@ func (e *Engine) clauseOfPred(fn *ssa.Function, pred string) (*Contract, *Clause
 	return nil, nil
 }
 
-// modSet computes the heap components in which the loop may write objects that
-// already exist when an iteration starts. Writes to objects allocated inside the
-// iteration (fresh backing arrays of append, composite literals, locals) need no
-// havoc: such objects get references that are new in every iteration.
-func (e *Engine) modSet(fr *frame, li *loopInfo) (keys map[string]bool, all bool) {
-	keys = map[string]bool{}
-	type fnKey struct {
-		fn    *ssa.Function
-		fresh string
-	}
-	seen := map[fnKey]bool{}
-	// isFreshRoot: does the pointer/slice/map value v denote an object allocated inside
-	// the current iteration (syntactic provenance)? paramFresh gives the answer for the
-	// parameters of an inlined callee.
-	var isFreshRoot func(v ssa.Value, inLoop func(ssa.Instruction) bool, paramFresh map[*ssa.Parameter]bool, depth int) bool
-	isFreshRoot = func(v ssa.Value, inLoop func(ssa.Instruction) bool, paramFresh map[*ssa.Parameter]bool, depth int) bool {
-		if depth > 20 {
-			return false
-		}
-		switch x := v.(type) {
-		case *ssa.Alloc:
-			return inLoop(x)
-		case *ssa.MakeSlice:
-			return inLoop(x)
-		case *ssa.MakeMap:
-			return inLoop(x)
-		case *ssa.FieldAddr:
-			return isFreshRoot(x.X, inLoop, paramFresh, depth+1)
-		case *ssa.IndexAddr:
-			return isFreshRoot(x.X, inLoop, paramFresh, depth+1)
-		case *ssa.Slice:
-			return isFreshRoot(x.X, inLoop, paramFresh, depth+1)
-		case *ssa.ChangeType:
-			return isFreshRoot(x.X, inLoop, paramFresh, depth+1)
-		case *ssa.Convert:
-			if _, ok := under(x.Type()).(*types.Slice); ok {
-				return inLoop(x) // []byte(string) allocates
-			}
-			return false
-		case *ssa.Call:
-			if b, ok := x.Call.Value.(*ssa.Builtin); ok && b.Name() == "append" {
-				return inLoop(x)
-			}
-			return false
-		case *ssa.Parameter:
-			return paramFresh != nil && paramFresh[x]
-		}
+// writeScanner collects, by a syntactic provenance analysis of SSA, the heap
+// components in which code may write objects that existed before the code started
+// (writes to objects it allocates itself are not effects a caller can observe).
+type writeScanner struct {
+	points  []ssa.Value // addresses of single cells written (values of the enclosing frame)
+	pointOK bool        // collect point writes (only when scanning the blocks of the frame itself)
+	e       *Engine
+	keys    map[string]bool
+	seen    map[string]bool
+	phiSeen map[*ssa.Phi]bool
+}
+
+func (ws *writeScanner) isFreshRoot(v ssa.Value, inScope func(ssa.Instruction) bool, paramFresh map[*ssa.Parameter]bool, depth int) bool {
+	if depth > 20 {
 		return false
 	}
-	var scanFn func(fn *ssa.Function, paramFresh map[*ssa.Parameter]bool)
-	var scanIns func(ins ssa.Instruction, inLoop func(ssa.Instruction) bool, paramFresh map[*ssa.Parameter]bool)
-	scanIns = func(ins ssa.Instruction, inLoop func(ssa.Instruction) bool, paramFresh map[*ssa.Parameter]bool) {
-		switch x := ins.(type) {
-		case *ssa.Store:
-			if isFreshRoot(x.Addr, inLoop, paramFresh, 0) {
-				return
-			}
-			switch a := x.Addr.(type) {
-			case *ssa.FieldAddr:
-				st := a.X.Type().(*types.Pointer).Elem()
-				keys["F:"+typeKey(st)+"."+under(st).(*types.Struct).Field(a.Field).Name()] = true
-			case *ssa.IndexAddr:
-				switch xt := under(a.X.Type()).(type) {
-				case *types.Slice:
-					keys["T:"+typeKey(types.NewSlice(xt.Elem()))] = true
-				case *types.Pointer:
-					keys["T:"+typeKey(xt.Elem())] = true
-				}
-			default:
-				keys["T:"+typeKey(x.Addr.Type().(*types.Pointer).Elem())] = true
-			}
-		case *ssa.MapUpdate:
-			if isFreshRoot(x.Map, inLoop, paramFresh, 0) {
-				return
-			}
-			keys["T:"+typeKey(under(x.Map.Type()))] = true
-			keys["T:"+typeKey(x.Map.Type())] = true
-		case ssa.CallInstruction:
-			cc := x.Common()
-			if b, ok := cc.Value.(*ssa.Builtin); ok {
-				switch b.Name() {
-				case "copy":
-					if !isFreshRoot(cc.Args[0], inLoop, paramFresh, 0) {
-						if st, ok := under(cc.Args[0].Type()).(*types.Slice); ok {
-							keys["T:"+typeKey(types.NewSlice(st.Elem()))] = true
-						}
-					}
-				case "delete":
-					if !isFreshRoot(cc.Args[0], inLoop, paramFresh, 0) {
-						keys["T:"+typeKey(under(cc.Args[0].Type()))] = true
-						keys["T:"+typeKey(cc.Args[0].Type())] = true
-					}
-				}
-				return
-			}
-			f := cc.StaticCallee()
-			if f == nil {
-				if mc, ok := cc.Value.(*ssa.MakeClosure); ok {
-					f = mc.Fn.(*ssa.Function)
-				}
-			}
-			if f == nil {
-				if cc.IsInvoke() {
-					for _, t := range e.implementations(cc.Value.Type()) {
-						ms := e.w.Prog.MethodSets.MethodSet(t)
-						if s := ms.Lookup(cc.Method.Pkg(), cc.Method.Name()); s != nil {
-							if mf := e.w.Prog.MethodValue(s); mf != nil {
-								scanFn(mf, nil)
-							}
-						}
-					}
-				}
-				return
-			}
-			name := fullName(f)
-			if strings.HasPrefix(name, "(encoding/binary.littleEndian).Put") {
-				if !isFreshRoot(cc.Args[1], inLoop, paramFresh, 0) {
-					keys["T:"+typeKey(types.NewSlice(types.Typ[types.Uint8]))] = true
-				}
-				return
-			}
-			if c := e.w.contractFor(f); c != nil && len(c.byKind("ensures")) > 0 && !c.Options["inline"] {
-				for _, cl := range c.byKind("assigns") {
-					for _, item := range splitTop(cl.Expr, ',') {
-						item = strings.TrimSpace(item)
-						if item != "" && item != "nothing" {
-							keys["P:"+item] = true
-						}
-					}
-				}
-				return
-			}
-			if e.inlinable(f) && len(f.Blocks) > 0 {
-				pf := map[*ssa.Parameter]bool{}
-				for i, p := range f.Params {
-					if i < len(cc.Args) && isFreshRoot(cc.Args[i], inLoop, paramFresh, 0) {
-						pf[p] = true
-					}
-				}
-				scanFn(f, pf)
+	switch x := v.(type) {
+	case *ssa.Alloc:
+		return inScope(x)
+	case *ssa.MakeSlice:
+		return inScope(x)
+	case *ssa.MakeMap:
+		return inScope(x)
+	case *ssa.FieldAddr:
+		return ws.isFreshRoot(x.X, inScope, paramFresh, depth+1)
+	case *ssa.IndexAddr:
+		return ws.isFreshRoot(x.X, inScope, paramFresh, depth+1)
+	case *ssa.Slice:
+		return ws.isFreshRoot(x.X, inScope, paramFresh, depth+1)
+	case *ssa.ChangeType:
+		return ws.isFreshRoot(x.X, inScope, paramFresh, depth+1)
+	case *ssa.MakeInterface:
+		return ws.isFreshRoot(x.X, inScope, paramFresh, depth+1)
+	case *ssa.Convert:
+		if _, ok := under(x.Type()).(*types.Slice); ok {
+			return inScope(x) // []byte(string) allocates
+		}
+		return false
+	case *ssa.Call:
+		if b, ok := x.Call.Value.(*ssa.Builtin); ok && b.Name() == "append" {
+			return inScope(x)
+		}
+		if f := x.Call.StaticCallee(); f != nil {
+			switch fullName(f) {
+			case "github.com/samber/lo.Map", "github.com/samber/lo.Filter", "github.com/samber/lo.FlatMap", "strings.Split", "strings.Fields":
+				return inScope(x) // these return newly allocated slices
 			}
 		}
+		return false
+	case *ssa.Parameter:
+		return paramFresh != nil && paramFresh[x]
+	case *ssa.Phi:
+		// fresh if every incoming value is (cycles through the phi itself are ignored)
+		if ws.phiSeen == nil {
+			ws.phiSeen = map[*ssa.Phi]bool{}
+		}
+		if ws.phiSeen[x] {
+			return true
+		}
+		ws.phiSeen[x] = true
+		defer delete(ws.phiSeen, x)
+		for _, ed := range x.Edges {
+			if c, ok := ed.(*ssa.Const); ok && c.Value == nil {
+				continue // nil slice: nothing to write through
+			}
+			if !ws.isFreshRoot(ed, inScope, paramFresh, depth+1) {
+				return false
+			}
+		}
+		return true
 	}
-	scanFn = func(fn *ssa.Function, paramFresh map[*ssa.Parameter]bool) {
-		sig := ""
-		for _, p := range fn.Params {
-			if paramFresh[p] {
-				sig += "1"
-			} else {
-				sig += "0"
-			}
-		}
-		k := fnKey{fn, sig}
-		if seen[k] {
+	return false
+}
+
+func (ws *writeScanner) scanIns(ins ssa.Instruction, inScope func(ssa.Instruction) bool, paramFresh map[*ssa.Parameter]bool) {
+	e := ws.e
+	keys := ws.keys
+	switch x := ins.(type) {
+	case *ssa.Store:
+		if ws.isFreshRoot(x.Addr, inScope, paramFresh, 0) {
 			return
 		}
-		seen[k] = true
-		all := func(ssa.Instruction) bool { return true } // everything in a callee happens inside the iteration
-		for _, b := range fn.Blocks {
-			for _, ins := range b.Instrs {
-				scanIns(ins, all, paramFresh)
+		switch a := x.Addr.(type) {
+		case *ssa.FieldAddr:
+			st := a.X.Type().(*types.Pointer).Elem()
+			keys["F:"+typeKey(st)+"."+under(st).(*types.Struct).Field(a.Field).Name()] = true
+		case *ssa.IndexAddr:
+			switch xt := under(a.X.Type()).(type) {
+			case *types.Slice:
+				if os.Getenv("GOVC_DEBUG") != "" {
+					fmt.Fprintf(os.Stderr, "write-scan: store through %s in %s at %s\n", a.X, ins.Parent(), e.posOf(ins.Pos()))
+				}
+				keys["E:"+typeKey(types.NewSlice(xt.Elem()))] = true
+			case *types.Pointer:
+				keys["T:"+typeKey(xt.Elem())] = true
+			}
+		default:
+			// *p = v : the cell p points to (for a slice-typed cell: its header, not its backing array).
+			// If p is computed outside the scanned scope (a local variable of the enclosing function
+			// whose address is taken), only that one cell is affected.
+			if ai, ok := x.Addr.(ssa.Instruction); ok && ws.pointOK && !inScope(ai) {
+				ws.points = append(ws.points, x.Addr)
+			} else if _, ok := x.Addr.(*ssa.Parameter); ok && ws.pointOK && paramFresh == nil {
+				ws.points = append(ws.points, x.Addr)
+			} else {
+				keys["C:"+typeKey(x.Addr.Type().(*types.Pointer).Elem())] = true
 			}
 		}
-		for _, af := range fn.AnonFuncs {
-			scanFn(af, nil)
+	case *ssa.MapUpdate:
+		if ws.isFreshRoot(x.Map, inScope, paramFresh, 0) {
+			return
+		}
+		keys["T:"+typeKey(under(x.Map.Type()))] = true
+		keys["T:"+typeKey(x.Map.Type())] = true
+	case ssa.CallInstruction:
+		cc := x.Common()
+		if b, ok := cc.Value.(*ssa.Builtin); ok {
+			switch b.Name() {
+			case "copy":
+				if !ws.isFreshRoot(cc.Args[0], inScope, paramFresh, 0) {
+					if st, ok := under(cc.Args[0].Type()).(*types.Slice); ok {
+						keys["E:"+typeKey(types.NewSlice(st.Elem()))] = true
+					}
+				}
+			case "delete":
+				if !ws.isFreshRoot(cc.Args[0], inScope, paramFresh, 0) {
+					keys["T:"+typeKey(under(cc.Args[0].Type()))] = true
+					keys["T:"+typeKey(cc.Args[0].Type())] = true
+				}
+			}
+			return
+		}
+		f := cc.StaticCallee()
+		if f == nil {
+			if mc, ok := cc.Value.(*ssa.MakeClosure); ok {
+				f = mc.Fn.(*ssa.Function)
+			}
+		}
+		if f == nil {
+			if cc.IsInvoke() {
+				for _, t := range e.implementations(cc.Value.Type()) {
+					ms := e.w.Prog.MethodSets.MethodSet(t)
+					if s := ms.Lookup(cc.Method.Pkg(), cc.Method.Name()); s != nil {
+						if mf := e.w.Prog.MethodValue(s); mf != nil {
+							ws.scanFn(mf, nil)
+						}
+					}
+				}
+			}
+			return
+		}
+		name := fullName(f)
+		switch {
+		case strings.HasPrefix(name, "(encoding/binary.littleEndian).Put"):
+			if !ws.isFreshRoot(cc.Args[1], inScope, paramFresh, 0) {
+				keys["E:"+typeKey(types.NewSlice(types.Typ[types.Uint8]))] = true
+			}
+			return
+		case strings.HasPrefix(name, "(*bytes.Buffer).Write"), name == "(*text/template.Template).Execute":
+			// writes the buffer object (its buf field and backing array)
+			wi := 0
+			if name == "(*text/template.Template).Execute" {
+				wi = 1
+			}
+			if wi < len(cc.Args) && ws.isFreshRoot(cc.Args[wi], inScope, paramFresh, 0) {
+				return
+			}
+			keys["T:bytes.Buffer"] = true
+			keys["E:"+typeKey(types.NewSlice(types.Typ[types.Uint8]))] = true
+			return
+		}
+		if c := e.w.contractFor(f); c != nil && len(c.byKind("ensures")) > 0 && !c.Options["inline"] {
+			for _, cl := range c.byKind("assigns") {
+				for _, item := range splitTop(cl.Expr, ',') {
+					item = strings.TrimSpace(item)
+					if item != "" && item != "nothing" {
+						keys["P:"+item] = true
+					}
+				}
+			}
+			return
+		}
+		if e.inlinable(f) && len(f.Blocks) > 0 {
+			pf := map[*ssa.Parameter]bool{}
+			for i, p := range f.Params {
+				if i < len(cc.Args) && ws.isFreshRoot(cc.Args[i], inScope, paramFresh, 0) {
+					pf[p] = true
+				}
+			}
+			ws.scanFn(f, pf)
 		}
 	}
+}
+
+func (ws *writeScanner) scanFn(fn *ssa.Function, paramFresh map[*ssa.Parameter]bool) {
+	sig := fmt.Sprintf("%p|", fn)
+	for _, p := range fn.Params {
+		if paramFresh[p] {
+			sig += "1"
+		} else {
+			sig += "0"
+		}
+	}
+	if ws.seen[sig] {
+		return
+	}
+	ws.seen[sig] = true
+	savePoint := ws.pointOK
+	ws.pointOK = false
+	defer func() { ws.pointOK = savePoint }()
+	all := func(ssa.Instruction) bool { return true } // everything in a callee happens inside the scope
+	for _, b := range fn.Blocks {
+		for _, ins := range b.Instrs {
+			ws.scanIns(ins, all, paramFresh)
+		}
+	}
+	for _, af := range fn.AnonFuncs {
+		ws.scanFn(af, nil)
+	}
+}
+
+// modSet computes the heap components in which the loop may write objects that
+// already exist when an iteration starts.
+func (e *Engine) modSet(fr *frame, li *loopInfo) (keys map[string]bool, all bool) {
+	ws := &writeScanner{e: e, keys: map[string]bool{}, seen: map[string]bool{}, pointOK: true}
 	inThisLoop := func(ins ssa.Instruction) bool { return li.blocks[ins.Block()] }
 	for b := range li.blocks {
 		for _, ins := range b.Instrs {
-			scanIns(ins, inThisLoop, nil)
+			ws.scanIns(ins, inThisLoop, nil)
 		}
 	}
-	return keys, false
+	li.points = ws.points
+	return ws.keys, false
+}
+
+// writeSetOfCall: the components a call of fn may write in pre-existing objects.
+func (e *Engine) writeSetOfFunc(fn *ssa.Function) map[string]bool {
+	ws := &writeScanner{e: e, keys: map[string]bool{}, seen: map[string]bool{}}
+	ws.scanFn(fn, nil)
+	return ws.keys
 }
 
 func (e *Engine) inModSet(keys map[string]bool, compKey string) bool {
@@ -216,6 +283,16 @@ func (e *Engine) inModSet(keys map[string]bool, compKey string) bool {
 		case "T:":
 			t := k[2:]
 			if compKey == t || strings.HasPrefix(compKey, t+".") || strings.HasPrefix(compKey, t+"[") || strings.HasPrefix(compKey, t+"#") {
+				return true
+			}
+		case "C:":
+			t := k[2:]
+			if compKey == t || strings.HasPrefix(compKey, t+".") {
+				return true
+			}
+		case "E:":
+			t := k[2:]
+			if strings.HasPrefix(compKey, t+"[") {
 				return true
 			}
 		case "F:":
@@ -307,6 +384,8 @@ func (e *Engine) evalGhostAt(fr *frame, li *loopInfo, c *ssa.Call, phis map[ssa.
 			}
 		case *ssa.Store, *ssa.MapUpdate:
 			fail("ghost cone contains a store")
+		case *ssa.Alloc:
+			fail("a loop invariant mentions a variable that is re-created in every iteration (%s)", x.Comment)
 		}
 		st := &blockState{}
 		e.execInstr(sub, ins.Block(), ins, "true", h, st)
@@ -365,7 +444,26 @@ func (e *Engine) enterLoop(fr *frame, li *loopInfo, reach string, heap Heap, con
 			e.dirty[k] = true
 		}
 	}
+	// single cells written in the loop (address-taken locals): havoc just those cells
+	seenPt := map[ssa.Value]bool{}
+	for _, pv := range li.points {
+		if seenPt[pv] {
+			continue
+		}
+		seenPt[pv] = true
+		addr, ok := fr.vals[pv]
+		if !ok {
+			keys["C:"+typeKey(pv.Type().(*types.Pointer).Elem())] = true
+			continue
+		}
+		et := pv.Type().(*types.Pointer).Elem()
+		saveG := e.guard
+		e.guard = reach
+		e.store(h, e.asPtr(addr, pv.Type()), et, e.freshVal(et, "loopcell"))
+		e.guard = saveG
+	}
 	e.loopMods(li, keys)
+	e.pendingWrites = append(e.pendingWrites, keys)
 	// allocation base of the loop body: above every reference that exists at the loop head
 	li.base = e.sc.declare("loopbase", SRef)
 	lo := bvLit(0x90000000, 32)
